@@ -200,7 +200,7 @@ def run(chk):
             par = oqupy.TempoParameters(dt=rng.choice([0.05, 0.1, 0.3]), epsrel=1e-6, dkmax=dkmax,
                                         add_correlation_time=rng.choice([None, 0.2, 1.0]))
             pops = [i * d + i for i in range(d)]
-            worst = None
+            worst = herm_bad = None
             for dk in list(range(0, dkmax + 1)) + [-1, -3]:
                 infl = influence_matrix(dk, par, bath.correlations, bath.coupling_acomm, bath.coupling_comm)
                 if infl is None:
@@ -208,6 +208,13 @@ def run(chk):
                 cols = np.diag(infl)[pops] if dk == 0 else infl[:, pops]
                 if not np.all(cols == 1.0):
                     worst = (dk, float(np.abs(cols - 1.0).max()))
+                # hypothesis of pathsum_herm: exchanging the branches of both indices conjugates the influence
+                swp = [(i % d) * d + i // d for i in range(d * d)]
+                ex = np.diag(infl)[swp] if dk == 0 else infl[np.ix_(swp, swp)]
+                ref_ = np.diag(infl) if dk == 0 else infl
+                hdev = float(np.abs(ex - ref_.conj()).max() / max(1.0, np.abs(ref_).max()))
+                if hdev > 1e-14:
+                    herm_bad = (dk, hdev)
             u = bath.unitary_transform
             tr = np.eye(d).reshape(-1)
             sup = [opr.left_right_super(u, u.conj().T), opr.left_right_super(u.conj().T, u)]
@@ -226,6 +233,9 @@ def run(chk):
         if worst is not None:
             chk.fail("influence-not-one-on-populations", f"influence_matrix(dk={worst[0]}) differs from 1 by {worst[1]:.2e} where the later index "
                      f"is a population: tracing out the latest point does not remove the coupling ({kind} coupling)", info)
+        if herm_bad is not None:
+            chk.fail("influence-not-branch-symmetric", f"influence_matrix(dk={herm_bad[0]}): exchanging forward and backward branch of both indices does not "
+                     f"conjugate it (deviation {herm_bad[1]:.2e}, {kind} coupling)", info)
         if dev > 1e-12:
             chk.fail("propagator-not-trace-preserving", f"a basis change / half-step propagator changes the trace functional by {dev:.2e}", info)
 
@@ -246,4 +256,4 @@ def run(chk):
              "Bath.unitary_transform and System propagators; search: Tempo, PtTempo, MeanFieldTempo, GibbsTempo, PtTebd "
              "with alpha up to 1.5, T in {0,.3,2}, pure/mixed/rank-deficient initial states; trace/Hermiticity within 50*epsrel at every step, positivity at full memory",
         assumptions=["positivity and the effect of SVD truncation on the trace are explored on the implementation only (no theorem)",
-                     "trace preservation of the full path sum is theorem pathsum_trace (its hypotheses are observed on influence_matrix / Bath / System on every run); the Hermiticity counterpart of that composition is not mechanised"])
+                     "trace preservation of the full path sum is theorem pathsum_trace (its hypotheses are observed on influence_matrix / Bath / System on every run); Hermiticity of the full path sum is theorem pathsum_herm"])
